@@ -1,6 +1,6 @@
 (* C19 — proofs of the witnesses and examples of Properties/C19.v that need more than a computation. *)
 From Coq Require Import List ZArith QArith String Bool Arith Floats Lia.
-From Crem Require Import Base.Res Params Saver AnnealLoop Catchment Limits LimitsProofs ConfigLoops Config ConfigSpec ConfigProofs ConfigRef.
+From Crem Require Import Base.Res Base.Fl Params Saver AnnealLoop Catchment Limits LimitsProofs ConfigLoops Config ConfigSpec ConfigProofs ConfigRef.
 Import ListNotations.
 Open Scope string_scope.
 Open Scope list_scope.
@@ -13,7 +13,7 @@ Definition rejected_is_error_statement : Prop :=
    range (the oracle [e_round_ok]; listed finding of C18, reproduced there on the real code) *)
 Definition env_round_fails : env :=
   mkEnv (e_fs ref_env) (e_data ref_env) (e_out_is_file ref_env) (e_out_usable ref_env) (e_profile_dir_ok ref_env) (e_profile_ok ref_env)
-        (e_excel ref_env) (fun _ => false).
+        (e_excel ref_env) (fun _ => false) (e_file_creatable ref_env) (e_cwd ref_env) (e_data_files ref_env).
 
 Lemma rejected_is_error_refuted : ~ rejected_is_error_statement.
 Proof.
@@ -32,7 +32,7 @@ Definition accepted_runs_statement : Prop :=
    (so the interpreter has nothing to object to) and cannot be created when the first run finishes -- the saver panics *)
 Definition env_out_uncreatable : env :=
   mkEnv (e_fs ref_env) (e_data ref_env) (fun _ => false) (fun _ => false) (e_profile_dir_ok ref_env) (e_profile_ok ref_env)
-        (e_excel ref_env) (e_round_ok ref_env).
+        (e_excel ref_env) (e_round_ok ref_env) (e_file_creatable ref_env) (e_cwd ref_env) (e_data_files ref_env).
 
 Lemma accepted_runs_refuted : ~ accepted_runs_statement.
 Proof.
@@ -45,6 +45,23 @@ Proof.
               ltac:(vm_compute; reflexivity) ltac:(vm_compute; reflexivity) L I) as (s & R & _).
   - vm_compute in L. inversion L; subst. vm_compute in I. inversion I; subst. exact Logic.I.
   - vm_compute in L. inversion L; subst. vm_compute in I. inversion I; subst. vm_compute in R. discriminate.
+Qed.
+
+(* ... and, in a perfectly usable environment, one class of CONFIGURATIONS (listed finding): the dumb model's InitialObjectiveValue
+   is only required to be a decimal; beyond MaxFloat64 / 1000 math.RoundFloat panics in the first proposal / in the saver *)
+Definition dumb_beyond_range : config :=
+  doc "P" "Suppapitnarm" [("MaximumIterations", VInt 3)] "DumbModel" [("InitialObjectiveValue", VFloat (Base.Fl.fl 1 1020))].
+
+Lemma accepted_runs_refuted_in_a_usable_environment :
+  exists l sc, load ref_facts dumb_beyond_range = Done l /\ interpret ref_facts ref_tables ref_env l = Done sc /\
+               e_out_usable ref_env (s_out_path sc) = true /\
+               run_model ref_env sc (fun _ => ref_choice) 1%float 1%float = RunCrash.
+Proof.
+  destruct (load ref_facts dumb_beyond_range) as [l| |] eqn:L; try (vm_compute in L; discriminate).
+  destruct (interpret ref_facts ref_tables ref_env l) as [sc| |] eqn:I;
+    try (vm_compute in L; inversion L; subst; vm_compute in I; discriminate).
+  exists l, sc. split; [reflexivity|]. split; [exact I|].
+  vm_compute in L. inversion L; subst. vm_compute in I. inversion I; subst. split; vm_compute; reflexivity.
 Qed.
 
 Lemma rr2_fair : fairk 2 2 (rr 2).
